@@ -106,6 +106,9 @@ def build(extra_rewrites=None, lock_overlay=False, buffer_min=None, quiet=True):
             raise Inconclusive("module file missing: " + modfile)
         with open(p, "a") as fh:
             fh.write('\n#[cfg(kani)]\n#[path = "verif/%s"]\npub(crate) mod vacc;\n' % shim)
+    # 1a. generated directory shape instances
+    from . import shapes
+    shapes.write_rs(os.path.join(hdst, "h_dir_gen.rs"))
     # 1b. case-mapping table = the real cfb_uppercase_char evaluated natively on SIGMA
     info["uptable"] = gen_uptable(src, hdst, root)
     # 2. error macros: payload-free errors (KIND taken from the real file)
@@ -206,7 +209,7 @@ def gen_uptable(src, hdst, root):
     if len(pairs) != len(SIGMA):
         raise Inconclusive("uptable output malformed")
     with open(os.path.join(hdst, "uptable.rs"), "w") as fh:
-        fh.write("// generated from /repo's current cfb_uppercase_char (native run)\n")
+        fh.write("// generated from /repo's current cfb_uppercase_char (native run)\n#![allow(dead_code)]\n")
         fh.write("pub const SIGMA: [char; %d] = [%s];\n" % (len(SIGMA), cps))
         fh.write("pub fn table_upper(c: char) -> char {\n    match c as u32 {\n")
         for a, b in pairs:
